@@ -84,7 +84,16 @@ def read_policy_from_file(path):
     object_types = set([t.name for t in enums.ObjectType])
     result = {}
 
+    if not isinstance(policy_blob, dict):
+        raise ValueError(
+            "The policy file '{}' must contain a JSON object.".format(path)
+        )
+
     for name, object_policy in policy_blob.items():
+        if not isinstance(object_policy, dict):
+            raise ValueError(
+                "Policy '{}' must be a JSON object.".format(name)
+            )
         if len(object_policy.keys()) == 0:
             continue
 
@@ -99,6 +108,11 @@ def read_policy_from_file(path):
 
             group_policies = object_policy.get('groups')
             if group_policies:
+                if not isinstance(group_policies, dict):
+                    raise ValueError(
+                        "The groups section of policy '{}' must be a JSON "
+                        "object.".format(name)
+                    )
                 parsed_group_policies = dict()
                 for group_name, group_policy in six.iteritems(group_policies):
                     parsed_group_policies[group_name] = parse_policy(
